@@ -106,6 +106,14 @@ Lemma call_sites_tie :
      "tak/model/wrapper.py:ModelWrapper.evaluate"].
 Proof. repeat split; reflexivity. Qed.
 
+(* every mask is allocated as a BOOLEAN tensor.  torch treats a floating-point attn_mask / key_padding_mask as
+   ADDITIVE (added to the scores) instead of hiding keys, so `visible` is the meaning of a mask only for dtype bool;
+   `~m` of a boolean tensor is boolean *)
+Lemma mask_dtypes_tie :
+  mask_dtypes = [("xformer/model.py:ar_mask", "torch.bool"); ("tak/model/encoding.py:_encode_batch", "torch.bool");
+                 ("tak/model/server.py:Server.run_model", "torch.bool")].
+Proof. reflexivity. Qed.
+
 Lemma wrapper_evaluate_tie :
   wrapper_evaluate = {| ev_moves_key := "moves"; ev_value_key := "values"; ev_row := 0; ev_softmax_dim := 0 |}.
 Proof. reflexivity. Qed.
